@@ -3035,6 +3035,10 @@ impl Compiler {
                         key: name_idx,
                         value: value_reg,
                     });
+                    self.builder.emit(Op::RecordNamespaceExport {
+                        ns: ns_obj,
+                        name: name_idx,
+                    });
                     self.builder.free_register(value_reg);
                 }
             }
@@ -3051,6 +3055,10 @@ impl Compiler {
                         key: name_idx,
                         value: value_reg,
                     });
+                    self.builder.emit(Op::RecordNamespaceExport {
+                        ns: ns_obj,
+                        name: name_idx,
+                    });
                     self.builder.free_register(value_reg);
                 }
             }
@@ -3066,6 +3074,10 @@ impl Compiler {
                     key: name_idx,
                     value: value_reg,
                 });
+                self.builder.emit(Op::RecordNamespaceExport {
+                    ns: ns_obj,
+                    name: name_idx,
+                });
                 self.builder.free_register(value_reg);
             }
             Statement::NamespaceDeclaration(nested_ns) => {
@@ -3080,6 +3092,10 @@ impl Compiler {
                     obj: ns_obj,
                     key: name_idx,
                     value: value_reg,
+                });
+                self.builder.emit(Op::RecordNamespaceExport {
+                    ns: ns_obj,
+                    name: name_idx,
                 });
                 self.builder.free_register(value_reg);
             }
